@@ -80,7 +80,7 @@ def main():
     if out and os.path.exists(out):
         os.remove(out)
     opts = runs.options(solve_time=cfg.get("T", 0.2), dt_init=cfg.get("dt", 5e-3), dt_max=5e-2, adaptive=cfg.get("adaptive", False), adaptive_window=2,
-                        save_every=3, output_file=out, include_screening=cfg.get("screening", False), screening_tolerance=1e-3)
+                        save_every=cfg.get("save_every", 3), output_file=out, include_screening=cfg.get("screening", False), screening_tolerance=1e-3)
     seed = None
     if cfg.get("seeded"):
         # a short run whose final state seeds the runs that are compared (the seed object is reused below)
@@ -92,6 +92,8 @@ def main():
     fin = lambda s_: {k: sha(getattr(s_.tdgl_data, k)) for k in ("psi", "mu", "supercurrent", "normal_current", "induced_vector_potential")}
     res["final"] = fin(sol)
     res["dt"] = sha(sol.dynamics.dt)
+    res["dynamics"] = {k: (None if getattr(sol.dynamics, k, None) is None else sha(getattr(sol.dynamics, k))) for k in ("mu", "theta", "screening_iterations")}
+    res["times"] = sha(sol.times)
     # "repeating a simulation with identical inputs": once more in this same process, with the same objects
     import dataclasses
     opts2 = dataclasses.replace(opts, output_file=None)
